@@ -139,6 +139,18 @@ class Aggregate(list):
                     }
                     raise OFXSpecError(errMsg.format(**errFields))
 
+        # Repeated children arrive as positional args rather than as keywords;
+        # count one as present when a group names it (e.g. the FORCNT / FORINCOME
+        # group of TAX1099INT_V100) and an instance of its class was passed.
+        listed = {
+            attr: True
+            for attr, type_ in cls.listaggregates.items()
+            if isinstance(type_, Types.ListAggregate)
+            and any(isinstance(arg, type_.__type__) for arg in args)
+        }
+        if listed:
+            kwargs = {**kwargs, **listed}
+
         enforce_count(
             cls,
             kwargs,
